@@ -297,11 +297,12 @@ pub open spec fn official(k: Klass, s: Seq<Result<Token, LexError>>, m: Sem) -> 
             && m == Sem::Alu { op, rd: rg(s, 1), a: opd_reg(rg(s, 2)), b: opd_reg(rg(s, 3)) },
         Klass::I(op) => is_reg(s, 1) && is_reg(s, 2) && is_imm(s, 3)
             && m == Sem::Alu { op, rd: rg(s, 1), a: opd_reg(rg(s, 2)), b: Opd::Imm(im(s, 3)) },
-        // lui rd, imm: rd <- imm * 4096. Only the shape is stated here: the operand range check (`RangeInclusive::contains`)
-        // and the `<< 12` on i32 have no usable Verus specification; value and range are decided (bounded) by decode_n.
-        Klass::Lui => is_reg(s, 1) && is_imm(s, 2) && (m matches Sem::Const { rd, value } && rd == rg(s, 1)),
-        // auipc rd, imm: same operand form as lui (shape only, see above)
-        Klass::Auipc => is_reg(s, 1) && is_imm(s, 2) && (m matches Sem::PcRel { rd, a, value } && rd == rg(s, 1) && a == Opd::Imm(0)),
+        // lui rd, imm: rd <- imm * 4096 as a 32-bit value, imm a 20-bit operand (anything else must be rejected)
+        Klass::Lui => is_reg(s, 1) && is_imm(s, 2) && 0 <= im(s, 2) <= 0xF_FFFF
+            && (m matches Sem::Const { rd, value } && rd == rg(s, 1) && value == to_i32w(im(s, 2) * 4096)),
+        // auipc rd, imm: same operand form and range; the tool represents the result as "pc-relative, upper part imm * 4096"
+        Klass::Auipc => is_reg(s, 1) && is_imm(s, 2) && 0 <= im(s, 2) <= 0xF_FFFF
+            && (m matches Sem::PcRel { rd, a, value } && rd == rg(s, 1) && a == Opd::Imm(0) && value == to_i32w(im(s, 2) * 4096)),
         Klass::Load(t) =>
             (is_reg(s, 1) && is_imm(s, 2) && is_lp(s, 3) && is_reg(s, 4) && is_rp(s, 5) && m == Sem::Load { t, rd: rg(s, 1), rs1: rg(s, 4), imm: im(s, 2) })
             || (is_reg(s, 1) && is_lp(s, 2) && is_reg(s, 3) && is_rp(s, 4) && m == Sem::Load { t, rd: rg(s, 1), rs1: rg(s, 3), imm: 0 })
@@ -361,6 +362,19 @@ pub open spec fn official(k: Klass, s: Seq<Result<Token, LexError>>, m: Sem) -> 
             PseudoType::Csrci => is_csr(s, 1) && is_imm(s, 2) && m == Sem::CsrI { t: CsrIType::Csrrci, rd: x0, csr: cs(s, 1), imm: im(s, 2) },
         },
     }
+}
+/// `v << 12` on a 20-bit operand is multiplication by 4096 in 32-bit two's complement
+pub proof fn lemma_shl12(v: i32)
+    requires 0 <= v <= 0xFFFFF,
+    ensures (v << 12) as int == to_i32w(v as int * 4096),
+{
+    let u = v as u32;
+    assert((v << 12) as u32 == u << 12u32) by(bit_vector) requires u == v as u32;
+    assert(u << 12u32 == (u * 4096u32) as u32) by(bit_vector) requires u <= 0xFFFFFu32;
+    assert(u * 4096 <= 0xFFFFF000u32) by(nonlinear_arith) requires u <= 0xFFFFF;
+    assert(v < 0x80000 ==> (v << 12) >= 0) by(bit_vector) requires 0 <= v <= 0xFFFFF;
+    assert(v >= 0x80000 ==> (v << 12) < 0) by(bit_vector) requires 0 <= v <= 0xFFFFF;
+    assert(((v << 12) as u32) as int == if (v << 12) >= 0 { (v << 12) as int } else { (v << 12) as int + 0x1_0000_0000 }) by(bit_vector);
 }
 pub open spec fn to_i32w(v: int) -> int { let m = v % 0x1_0000_0000; if m < 0x8000_0000 { m } else { m - 0x1_0000_0000 } }
 
